@@ -165,5 +165,39 @@ def run(chk):
             chk.ob(rule, "remove_unloaded::all model circuits", True, file=FILE, func="Circuit.remove_unloaded", line=fi.node.lineno, fact={"circuits": n_c, "evaluations": stats["evals"]})
         for (r, what), fact in mine.items():
             chk.ob(rule, f"remove_unloaded::{what}", False, file=FILE, func="Circuit.remove_unloaded", line=fi.node.lineno, fact=fact, expect="see rule description")
+    # repeated application on ONE object with an edit in between that keeps node and edge counts (an output mark dropped, a
+    # wire moved): the second call must do what a first call on a fresh identical circuit does (no memo of "nothing to do")
+    from ..refmodel import build as _build
+
+    def _base():
+        return _build({"a": ("input", []), "b": ("input", []), "c": ("input", []), "g": ("and", ["a", "b"]), "y": ("not", ["g"]), "h": ("or", ["b", "c"]), "z": ("buf", ["h"]), "k": ("xor", ["a", "c"])},
+                      outputs=["y", "z", "k"])
+
+    def _drop_mark(cc):
+        cc.set_output("y", False)
+        return "set_output('y', False)"
+
+    def _move_wire(cc):
+        cc.disconnect("h", "z")
+        cc.connect("g", "z")
+        return "disconnect('h','z'); connect('g','z')"
+
+    def _swap_marks(cc):
+        cc.set_output("z", False)
+        cc.set_output("h", True)
+        return "set_output('z', False); set_output('h', True)"
+
+    for ename, edit in (("output mark dropped", _drop_mark), ("wire moved", _move_wire), ("output mark moved", _swap_marks)):
+        for flag in (False, True):
+            cc = _base()
+            r1 = P.call_method(FILE, "Circuit.remove_unloaded", cc, flag)
+            what = edit(cc)
+            fresh = cc.copy()
+            r2 = P.call_method(FILE, "Circuit.remove_unloaded", cc, flag)
+            r3 = Package(repo).call_method(FILE, "Circuit.remove_unloaded", fresh, flag)
+            same = r2[0] == r3[0] and (r2[0] != "return" or sorted(r2[1]) == sorted(r3[1])) and cc._snapshot()[1:3] == fresh._snapshot()[1:3]
+            chk.ob("C16.H.no-stale-state", f"remove_unloaded::{ename}::inputs={flag}", same, file=FILE, func="Circuit.remove_unloaded", line=fi.node.lineno,
+                   fact={"edit": what, "second_call_removed": str(r2[1] if r2[0] == "return" else r2)[:100], "fresh_circuit_removed": str(r3[1] if r3[0] == "return" else r3)[:100]},
+                   expect="the second call on the edited object equals a first call on a fresh identical circuit")
     chk.floor("model circuits", n_c, 300)
     chk.extra["model_circuits"] = n_c
